@@ -258,7 +258,128 @@ def r15_7(prog: Program, rep: Report):
     rep.check(not bad, "R15.7", "typelib", "", f"{sites} boolean expression(s) that test a sequence for emptiness and index it: the test comes first", f"the sequence is indexed before it is tested for emptiness in {bad[:2]}: for the empty sequence (the arguments of tuple[()], an unparameterised generic) the index raises IndexError before the guard is reached", detail="empty-before-index")
 
 
+def _same_arg_edges(prog: Program):
+    """Edges f -> g of the package's module-level functions where f passes *its own first parameter, unchanged,* as g's first
+    argument (`name = compat.cache(func)` aliases resolved).  Each edge records the call term and the guards of the
+    paths that evaluate it."""
+    import ast as _ast
+
+    def target(n):
+        if n in prog.functions:
+            return prog.functions[n]
+        mn, _, nm = (n or "").rpartition(".")
+        mod = prog.modules.get(mn)
+        if mod and nm in mod.assigns:
+            v = mod.assigns[nm]
+            if isinstance(v, _ast.Call) and v.args:
+                return prog.functions.get(prog.resolve_expr_name(mod, v.args[0]) or "")
+        return None
+
+    edges = {}
+    for q, f in prog.functions.items():
+        if f.cls is not None or not f.params or not q.startswith("typelib.py.inspection."):
+            continue
+        try:
+            ps = P.paths_of(prog, f)
+        except Exception:
+            continue
+        me = ("param", f.params[0])
+        for pth in ps:
+            gs = pth.guards()
+            for tm in pth.all_terms():
+                for c in T.walk(tm):
+                    if c[0] != "call" or not c[2] or c[2][0] != me:
+                        continue
+                    g = target(T.refname(c[1]) or "")
+                    if g is None or g.cls is not None or not g.params:
+                        continue
+                    edges.setdefault((q, g.qualname), []).append((c, gs))
+    return edges
+
+
+def r15_8(prog: Program, rep: Report):
+    """Termination of the inspection helpers: a cycle of calls that hands the *same object* round has no decreasing measure;
+    it terminates only if the re-entry fixes a flag that switches the cycle's own guard off (`exhaustive=False`)."""
+    edges = _same_arg_edges(prog)
+    succ = {}
+    for a, b in edges:
+        succ.setdefault(a, set()).add(b)
+    cycles = []
+
+    def dfs(start, node, trail):
+        for nxt in sorted(succ.get(node, ())):
+            if nxt == start:
+                cycles.append(trail + [nxt])
+            elif nxt not in trail and nxt > start and len(trail) < 6:
+                dfs(start, nxt, trail + [nxt])
+
+    for a in sorted(succ):
+        dfs(a, a, [a])
+    open_cycles = []
+    for cyc in cycles:
+        nodes = cyc[:-1]
+        broken = False
+        for i, fq in enumerate(nodes):
+            f = prog.functions[fq]
+            nxt = cyc[i + 1]
+            prev = nodes[i - 1]
+            # the flags the previous edge fixes for f
+            fixed = {}
+            for c, _gs in edges[(prev, fq)]:
+                kw = {k: v for k, v in c[3] if k}
+                for j, a in enumerate(c[2][1:], start=1):
+                    if j < len(f.params):
+                        kw.setdefault(f.params[j], a)
+                consts = {k: v[1] for k, v in kw.items() if v[0] == "const"}
+                fixed = consts if not fixed else {k: v for k, v in fixed.items() if consts.get(k, object()) == v}
+            # every evaluation of the outgoing edge in f is under a guard that such a flag falsifies
+            outs = edges[(fq, nxt)]
+            def off(gs):
+                for g, pol in gs:
+                    for k, v in fixed.items():
+                        if g == ("param", k) and bool(v) != pol:
+                            return True
+                        if g[0] == "boolop" and g[1] == "and" and pol and any(x == ("param", k) and not v for x in g[2]):
+                            return True
+                return False
+            if fixed and all(off(gs) for _c, gs in outs):
+                broken = True
+                break
+        if not broken:
+            open_cycles.append(" -> ".join(x.rsplit(".", 1)[-1] for x in cyc))
+    rep.check(not open_cycles, "R15.8", "typelib.py.inspection", "", f"{len(cycles)} call cycle(s) that pass the same object round are switched off on re-entry by a constant flag", f"the helpers call each other with the same object and nothing stops the round trip ({open_cycles[:2]}): for a class that yields no hints at all (an empty TypedDict) routine construction ends in RecursionError", detail="same-argument-cycle")
+
+
+def r15_9(prog: Program, rep: Report):
+    """A parameterised user generic (`Box[int]`) is an alias object: typing.get_type_hints() rejects it (TypeError -- it takes
+    modules, classes and callables) and its inspect.signature is `(*args, **kwargs)`.  The hints wrapper must therefore
+    look at the alias's origin on the path where the stdlib call was abandoned, or the class's fields are lost."""
+    gh = prog.function(f"{C.INSP}.get_type_hints")
+    obj = ("param", gh.params[0])
+    ps = P.splice_helpers(prog, P.paths_of(prog, gh))
+    rejected = [p for p in ps if any("builtins.TypeError" in names for names in P.abandoned(p)) and any(e[0] == "attempt" and T.contains(e[1], lambda x: T.is_call_to(x, "typing.get_type_hints")) for e in p.events)]
+    if not rejected:
+        rep.undecided("R15.9", gh.qualname, gh.loc, "no path on which typing.get_type_hints(obj) is abandoned with TypeError", detail="alias-hints")
+        return
+
+    def looks_at_origin(p):
+        for tm in p.all_terms():
+            for x in T.walk(tm):
+                if T.is_call_to(x, "typing.get_origin", f"{C.INSP}.origin") and x[2][:1] == (obj,):
+                    return True
+                if x == ("attr", obj, "__origin__") or (T.is_call_to(x, "builtins.getattr") and x[2][:2] == (obj, ("const", "__origin__"))):
+                    return True
+        return False
+
+    ok = all(looks_at_origin(p) for p in rejected)
+    rep.check(ok, "R15.9", gh.qualname, gh.loc, f"on the {len(rejected)} path(s) where typing.get_type_hints rejects the object, the alias's origin is consulted", "when typing.get_type_hints rejects the object (a parameterised user generic such as Box[int] is an alias, not a class) the wrapper goes straight to the signature, which for an alias is (*args, **kwargs): the routine knows no field and unmarshal(Box[int], {'value': 1}) raises TypeError: __init__() missing 1 required positional argument", detail="alias-hints")
+
+
 def run(prog: Program, rep: Report, tier: str):
+    rep.rule("R15.9", "hints of a parameterised user generic come from its origin class", floor=1)
+    r15_9(prog, rep)
+    rep.rule("R15.8", "helper call cycles on the same object are cut by a flag fixed on re-entry", floor=1)
+    r15_8(prog, rep)
     rep.rule("R15.7", "emptiness tests precede constant indexing of the same sequence within one boolean expression", floor=1)
     r15_7(prog, rep)
     rep.rule("R15.4", "no dispatch predicate raises on a form of the annotation grammar (abstract evaluation, both tables)", floor=22)
